@@ -1,7 +1,7 @@
 (* C10 -- the overlay shows the overlayfs union of its layers and never modifies lowers.
    Only statements, closed by [exact]; proofs live in Proofs/Overlay*.v. *)
 From Coq Require Import List String NArith Bool.
-From FB Require Import Model.Overlay Proofs.OverlayInv Proofs.OverlayScan Proofs.OverlayRestart Proofs.OverlayReadOnly Proofs.OverlayCoh Proofs.OverlayCohView Proofs.OverlayCohOps Proofs.OverlayCohSteps.
+From FB Require Import Model.Overlay Proofs.OverlayInv Proofs.OverlayScan Proofs.OverlayRestart Proofs.OverlayReadOnly Proofs.OverlayCoh Proofs.OverlayCohView Proofs.OverlayCohOps Proofs.OverlayCohSteps Proofs.OverlayRefineTeq Proofs.OverlayRefineMerge Proofs.OverlayRefineRun Proofs.OverlayRefine.
 Import ListNotations.
 Local Open Scope string_scope.
 Local Open Scope N_scope.
@@ -81,6 +81,75 @@ Theorem C10_view_is_union_ser : forall u ls nx ops, Forall layer_ok (u :: ls) ->
   let s := run_dumps ops (load_all (fresh (Some u) ls nx)) in
   ser_opt (view (load_all s)) = ser_opt (merge (all_layers (upper s) (lowers s))).
 Proof. exact view_union_history_ser. Qed.
+(* (c), the NO-COPY-UP fragment of the per-operation refinement (Proofs/OverlayRefine*.v).
+   [direct s o] (a boolean function of the DISK state only, Proofs/OverlayRefine.v) says that the operation works on
+   the upper layer alone:
+     - MKDIR / CREATE / MKNOD / SYMLINK: the parent is a directory of the upper layer and no layer (through the
+       directories that take part in the union at the parent) holds a candidate for the new name;
+     - UNLINK (RMDIR): the target is a regular file or symlink (a directory without entries) of the upper layer and
+       no lower layer holds a candidate for its name;
+     - OPEN with any flag word / WRITE / TRUNCATE / CHMOD / SETXATTR / REMOVEXATTR of a name that is not one of the
+       three opaque markers: the target is a regular file of the upper layer and no lower layer contains a file
+       with the same hard-link identity (the view puts the identities of all layers into one name space);
+     - the path is shorter than DEPTH, the depth to which [view] looks.
+   For EVERY coherent state (hence every state reached from a fresh overlay by a history over [coh_op]) and every such
+   operation: (i) the answer (error code, or payload of a success) is the one the ordinary in-memory file system
+   [fs_apply] gives on the client's view, with the overlay's inode counter as the ordinary file system's;
+   (ii) the client's view afterwards is the tree [fs_apply] produces from the view before, as trees of finite maps
+   ([teq]: entry order inside a directory is not compared; file identities ARE compared); (iii) the lower layers are
+   unchanged.  Failing instances are included (REMOVEXATTR of an absent attribute: ENODATA on both sides, nothing changes).
+   Not covered: operations that need a copy-up, a whiteout, the removal of a whiteout or an opaque directory, LINK,
+   chmod / setxattr of a directory, and failing operations in general. *)
+Theorem C10_op_refines_direct : forall s o v, Coherent s -> direct s o = true -> view (load_all s) = Some v ->
+  let spec := fs_apply o (mkFs v (next_ino s)) in
+  res_same (fst (step o s)) (fst spec) /\
+  oteq (view (load_all (run_op o s))) (Some (f_tree (snd spec))) /\
+  lowers (run_op o s) = lowers s.
+Proof. exact op_refines_direct. Qed.
+(* the same in the form of C10_op_refines_full (equal serialisations; [ser] omits file identities), after any history
+   over [coh_op] from a fresh overlay over any well-formed layers *)
+Theorem C10_op_refines_direct_history : forall u ls nx ops o, Forall layer_ok (u :: ls) -> coh_history ops = true ->
+  direct (run_dumps ops (load_all (fresh (Some u) ls nx))) o = true -> op_refines (Some u) ls nx ops o.
+Proof. exact op_refines_direct_history. Qed.
+(* two ingredients, of independent use: the ordinary file system cannot tell [teq] trees apart (same answer, [teq] results) ... *)
+Theorem C10_ordinary_fs_respects_teq : forall o a b n, teq a b ->
+  res_same (fst (fs_apply o (mkFs a n))) (fst (fs_apply o (mkFs b n))) /\
+  teq (f_tree (snd (fs_apply o (mkFs a n)))) (f_tree (snd (fs_apply o (mkFs b n)))) /\
+  f_next (snd (fs_apply o (mkFs a n))) = f_next (snd (fs_apply o (mkFs b n))).
+Proof. exact fs_apply_teq. Qed.
+(* ... and the merge algebra: replacing the entry [nm] of the directory at [pp] of the top layer (by [G], which touches
+   no other name) changes the overlayfs union exactly at [pp]/[nm], to what the new group of candidates resolves to
+   (a leaf, a merged directory, or nothing when a whiteout is on top); a change of all files with one hard-link
+   identity commutes with the union when no lower layer uses the identity. *)
+Theorem C10_merge_update : forall nm G f pp u ls m x ch,
+  Forall wf (u :: ls) -> tget u pp = Some (Dir m x ch) -> only_at nm G ch -> DEPTH = (S f + List.length pp)%nat ->
+  let newgrp := ents nm (dir_stack (Dir m x (G ch) :: tl (mstack (u :: ls) pp))) in
+  oteq (merge (tupd pp (chmap G) u :: ls))
+       (option_map (tupd pp (setc nm (resolve f newgrp))) (merge (u :: ls))).
+Proof. exact merge_tupd. Qed.
+Theorem C10_merge_file_change : forall i g u ls, hide_comm g -> forallb (fun l => negb (ino_in i l)) ls = true ->
+  merge (tmap_ino i g u :: ls) = option_map (tmap_ino i g) (merge (u :: ls)).
+Proof. exact merge_tmap_ino. Qed.
+(* non-vacuity: a coherent state over an upper and a lower layer with a merged directory; fourteen operations
+   satisfy [direct] there (and seven do not: lower candidates, a lower-only parent, an opaque marker, a merged directory) *)
+Example C10_op_refines_direct_nonvacuous :
+  let u := Dir 493 [] [("d", Dir 493 [] [("f", File 5 420 [104] [("user.a", [1])]); ("e", Dir 448 [] [])]); ("g", Lnk [97])] in
+  let l := Dir 493 [] [("d", Dir 448 [] [("o", File 2 420 [111] [])]); ("z", Dir 493 [] [])] in
+  let s := load_all (fresh (Some u) [l] 1000) in
+  Coherent s /\
+  forallb (direct s) [OMkdir ["d"; "n"] 493; OCreate ["d"; "c"] 420; OMknod ["c"] 420; OSymlink ["k"] [1]; OUnlink ["d"; "f"]; OUnlink ["g"];
+     ORmdir ["d"; "e"]; OWrite ["d"; "f"] 1 [33]; OChmod ["d"; "f"] 384; OSetxattr ["d"; "f"] "user.k" [1];
+     ORemovexattr ["d"; "f"] "user.a"; ORemovexattr ["d"; "f"] "user.b"; OOpen ["d"; "f"] OF_WT; OTruncate ["d"; "f"] 3] = true /\
+  forallb (fun o => negb (direct s o)) [OMkdir ["d"; "o"] 493; OUnlink ["d"; "o"]; OChmod ["d"; "o"] 384; OMkdir ["z"; "q"] 493;
+     OSetxattr ["d"; "f"] "user.overlay.opaque" [121]; ORmdir ["d"]; OLookup ["d"]] = true /\
+  ser_opt (view s) = "d1ed(d=d1ed(e=d1c0(),f=f1a4[user.a=01,]:68,o=f1a4:6f,),g=l:61,z=d1ed(),)" /\
+  ser_opt (view (load_all (run_op (OUnlink ["d"; "f"]) s))) = "d1ed(d=d1ed(e=d1c0(),o=f1a4:6f,),g=l:61,z=d1ed(),)".
+Proof.
+  cbv zeta. split; [|vm_compute; repeat split; reflexivity].
+  apply load_all_coherent. apply fresh_coherent.
+  repeat (first [apply Forall_cons | apply Forall_nil | split | apply wf_dir | apply wf_file | apply wf_lnk | apply wf_wh
+                | apply NoDup_cons | apply NoDup_nil | (cbn; intuition discriminate) | reflexivity ]).
+Qed.
 (* The model's OPEN takes the whole flag word (access mode and O_TRUNC, O_APPEND, O_CREAT, O_EXCL) and decides
    "read-only, no copy-up" with the code's own mask, not with the access mode: O_RDONLY|O_TRUNC is NOT read-only. *)
 Example C10_open_mask :
@@ -162,6 +231,11 @@ Print Assumptions C10_coherent_history.
 Print Assumptions C10_view_is_union.
 Print Assumptions C10_view_is_union_history.
 Print Assumptions C10_view_is_union_ser.
+Print Assumptions C10_op_refines_direct.
+Print Assumptions C10_op_refines_direct_history.
+Print Assumptions C10_ordinary_fs_respects_teq.
+Print Assumptions C10_merge_update.
+Print Assumptions C10_merge_file_change.
 Print Assumptions C10_fresh_invariant.
 Print Assumptions C10_lowers_untouched.
 Print Assumptions C10_lowers_untouched_history.
